@@ -96,7 +96,7 @@ theorem aUpdateTxs_hist (A : ADB) (p : ATx → Bool) (u : ATx → ATx) (hu : ∀
         refine ⟨by simp [hu t], as, bs, e, ?_⟩
         intro x hx
         have hx' : x ∈ A.txs.filter p := by rw [e]; exact List.mem_append_left _ hx
-        simp only [Function.comp, hu x, beq_iff_eq, Bool.not_eq_true', beq_eq_false_iff_ne, ne_eq]
+        simp only [Function.comp, hu x, Bool.not_eq_true', beq_eq_false_iff_ne, ne_eq]
         intro e2
         have hxt : x = t := pairwise_lt_inj hs.tx_seq (List.mem_filter.mp hx').1 ht e2
         subst hxt
@@ -171,7 +171,7 @@ theorem aUpdateAccounts_hist (A : ADB) (p : AAcct → Bool) (u : AAcct → AAcct
         refine ⟨by simp [hu t], as, bs, e, ?_⟩
         intro x hx
         have hx' : x ∈ A.accounts.filter p := by rw [e]; exact List.mem_append_left _ hx
-        simp only [Function.comp, hu x, beq_iff_eq, Bool.not_eq_true', beq_eq_false_iff_ne, ne_eq]
+        simp only [Function.comp, hu x, Bool.not_eq_true', beq_eq_false_iff_ne, ne_eq]
         intro e2
         have hxt : x = t := pairwise_lt_inj hs.acct_seq (List.mem_filter.mp hx').1 ht e2
         subst hxt
